@@ -142,12 +142,26 @@ def mk_symbolic(ip: Interp, sortname: str, hint: str):
         p.assume(z3.And(c >= 0, c <= 0x10FFFF))
         p.vars[hint] = ('char', c)
         return Char(c)
-    if sortname in w.registry.classes and 'fields' in w.registry.classes[sortname]:
-        info = w.registry.classes[sortname]
-        rec = PRec(sortname, {})
+    base, overrides = _split_overrides(sortname)
+    if base in w.registry.classes and 'fields' in w.registry.classes[base]:
+        info = w.registry.classes[base]
+        rec = PRec(base, {})
         for fname, fsort in info['fields'].items():
-            rec.f[fname] = mk_symbolic(ip, fsort, f'{hint}.{fname}')
+            sub = {k[len(fname) + 1:]: v for k, v in overrides.items() if k.startswith(fname + '.')}
+            fs = overrides.get(fname, fsort)
+            if sub:
+                fs = fs + '{' + ';'.join(f'{k}={v}' for k, v in sub.items()) + '}'
+            rec.f[fname] = mk_symbolic(ip, fs, f'{hint}.{fname}')
         return rec
+    if sortname.startswith('stack[') :
+        # a non-empty sequence given as  below ++ [f_k] ++ ... ++ [f_1]  (k = declared minimum depth)
+        inner, k = sortname[len('stack['):-1].split(',')
+        es = S.sort_of(inner.strip())
+        below = p.fresh(hint + '_below', z3.SeqSort(es))
+        tops = [p.fresh(f'{hint}_top{i}', es) for i in range(int(k), 0, -1)]
+        t = z3.Concat(below, *[z3.Unit(x) for x in tops])
+        p.vars[hint] = ('term', t)
+        return t
     srt = S.sort_of(sortname)
     if srt is None:
         raise ContractBindError(f'unknown sort {sortname!r}')
@@ -160,14 +174,29 @@ def mk_symbolic(ip: Interp, sortname: str, hint: str):
     return t
 
 
-def _split_top(s: str):
+def _split_overrides(sortname: str):
+    if sortname.endswith('}') and '{' in sortname:
+        base, rest = sortname.split('{', 1)
+        ov = {}
+        for item in _split_top(rest[:-1], sep=';'):
+            k, v = item.split('=', 1)
+            ov[k.strip()] = v.strip()
+        return base.strip(), ov
+    return sortname, {}
+
+
+def _split_top(s: str, sep=','):
     parts, depth, cur = [], 0, ''
     for ch in s:
         if ch == '[':
             depth += 1
         elif ch == ']':
             depth -= 1
-        if ch == ',' and depth == 0:
+        if ch in '{':
+            depth += 1
+        elif ch in '}':
+            depth -= 1
+        if ch == sep and depth == 0:
             parts.append(cur.strip())
             cur = ''
         else:
@@ -180,6 +209,7 @@ def _split_top(s: str):
 def wf_assume(ip: Interp, v, sortname: str):
     """well-formedness facts implied by the python type."""
     reg = ip.w.registry
+    sortname = _split_overrides(sortname)[0]
     if isinstance(v, PRec):
         info = reg.classes.get(v.cls, {})
         for clause in info.get('wf', []):
@@ -212,8 +242,18 @@ def snapshot(v):
 
 def coerce_arg(ip: Interp, v, sortname: str, n):
     sortname = sortname.strip()
-    if sortname in ('arrstr', 'charset', 'None', 'char') or sortname.startswith(('arrlist[', 'opaque:', 'func:', 'tuple[')):
+    if sortname.startswith('stack['):
         return v
+    if sortname.startswith('func:'):
+        gen = sortname.split(':', 1)[1]
+        if isinstance(v, BoundMeth) and isinstance(v.recv, Opaque) and isinstance(v.target, PyConst) and v.target.name == gen:
+            return FuncVal(gen, v.recv.ident)
+        if isinstance(v, FuncVal) or v is None:
+            return v
+        ip.oos(f'cannot pass {type(v).__name__} where a {gen} function is expected', n)
+    if sortname in ('arrstr', 'charset', 'None', 'char', 'any') or sortname.startswith(('arrlist[', 'opaque:', 'func:', 'tuple[')):
+        return v
+    sortname = _split_overrides(sortname)[0]
     if sortname in ip.w.registry.classes and 'fields' in ip.w.registry.classes[sortname]:
         return v
     srt = S.sort_of(sortname)
@@ -286,6 +326,8 @@ def apply_contract(ip: Interp, c: Contract, recv, args, kwargs, n):
             exc = ExcV(cid, p.fresh('eid', z3.IntSort()), origin=f'callee:{short}')
             env['exc'] = exc
             for clause in clauses:
+                if _assign_form(ip, clause, env, c.modifies):
+                    continue
                 p.assume(spec_eval_env(ip, clause, env))
             if not p.feasible(z3.BoolVal(True)):
                 raise PathEnd()
@@ -304,6 +346,8 @@ def apply_contract(ip: Interp, c: Contract, recv, args, kwargs, n):
     result = mk_symbolic(ip, c.ret, f'{short}.result')
     env['result'] = result
     for _tag, clause in c.clauses():
+        if _assign_form(ip, clause, env, c.modifies):
+            continue
         p.assume(spec_eval_env(ip, clause, env))
     for lemma, clause in c.assumed_ensures:
         p.assume(spec_eval_env(ip, clause, env))
@@ -311,6 +355,29 @@ def apply_contract(ip: Interp, c: Contract, recv, args, kwargs, n):
     if not p.feasible(z3.BoolVal(True)):
         raise PathEnd()
     return result
+
+
+def _assign_form(ip: Interp, clause: str, env: dict, modifies: list[str]) -> bool:
+    """a postcondition `<modified path> == <expr>` is applied as an assignment (keeps terms structural)."""
+    node = ast.parse(clause.strip(), mode='eval').body
+    if not (isinstance(node, ast.Compare) and len(node.ops) == 1 and isinstance(node.ops[0], ast.Eq)):
+        return False
+    left = ast.unparse(node.left)
+    if left not in [m.strip() for m in modifies]:
+        return False
+    sub = Interp(ip.p, None, env, spec=True, fname='<assign-post>')
+    get, set_ = sub.place(node.left)
+    cur = get()
+    val = sub.ev(node.comparators[0])
+    if isinstance(val, ZRec):
+        val = val.get()
+    if isinstance(cur, ZRec):
+        cur.set(sub.coerce_sort(val, cur.get().sort(), node))
+        return True
+    if z3.is_expr(cur) and z3.is_expr(sub.z(val)):
+        set_(sub.coerce_sort(val, cur.sort(), node))
+        return True
+    return False
 
 
 # --------------------------------------------------------------------------- verifying a function
